@@ -691,6 +691,25 @@ func $NB(a int) int {
 	g := func(x int) int { return $NId[int](x) }
 	return f(a) + g(a)
 }`, entries: []*Entry{callEntry("$NB", 1, nil)}},
+	{name: "eta-partially-instantiated-generic", tags: []string{"eta-shape"}, decls: byGen + `
+func $NConv[R, T any](x T) R {
+	var r R
+	if v, ok := any(x).(R); ok {
+		r = v
+	}
+	return r
+}
+
+func $NPair[A, B any](a A, b B) int { return len(fmt.Sprint(a, b)) }
+
+var $NK = func(x string) int { return $NConv[int](x) }
+
+func $NB(a int) int {
+	f := func(x int) any { return $NConv[any](x) }
+	g := func(x int, y string) int { return $NPair[int](x, y) }
+	h := func(x int, y string) int { return $NPair[int, string](x, y) }
+	return $NK("s") + f(a).(int) + g(a, "q") + h(a, "qq")
+}`, imports: []string{`"fmt"`}, entries: []*Entry{callEntry("$NB", 1, nil)}},
 	{name: "eta-declared-func", tags: []string{"eta-shape"}, decls: byGen + `
 func $NInc(x int) int { return x + 1 }
 
